@@ -1,3 +1,4 @@
+pub mod c13;
 pub mod c16;
 pub mod c19;
 pub mod c20;
